@@ -19,7 +19,12 @@ Record xin := {
   x_atmos : Z * Z;
   x_eos : eosarg;
   x_ninc : nat;
-  x_diff_ok : bool }.
+  x_diff_ok : bool;
+  (* initial conditions, each value standing for a vector of primary variables: PARAM default, INDOM by rock type
+     name, INCON by block name (what effective_incons combines) *)
+  x_default : Z;
+  x_indom : list (str * Z);
+  x_incon : list (str * Z) }.
 
 (** * eos_json *)
 Fixpoint assoc_z {A} (k : Z) (l : list (Z * A)) : option A :=
@@ -148,3 +153,78 @@ Fixpoint sources_loop (x : xin) (ubn : bool) (ids : list nat) (used : list (str 
   end.
 Definition sources (x : xin) : res (list (str * option Z)) :=
   sources_loop x (use_block_names (x_d x)) (genlist (x_d x)) [].
+
+(** * the geometry's block order (mulgrid.setup_block_name_index): atmosphere blocks first, then the underground
+      blocks by layer and column, or (dmplex) the 8-node blocks followed by the 6-node blocks *)
+Inductive border := BONone | BOLayerColumn | BODmplex.
+Record geom := { gm_atm : list str; gm_under : list (str * nat); gm_order : border }.
+Definition nodes_are (k : nat) (p : str * nat) : bool := Nat.eqb (snd p) k.
+Definition dmplex_list (u : list (str * nat)) : res (list str) :=
+  if forallb (fun p => nodes_are 6 p || nodes_are 8 p) u
+  then Ok (map fst (filter (nodes_are 8) u) ++ map fst (filter (nodes_are 6) u))
+  else Raise PlainException.
+Definition block_name_list (g : geom) : res (list str) :=
+  match gm_order g with
+  | BONone | BOLayerColumn => Ok (gm_atm g ++ map fst (gm_under g))
+  | BODmplex => do l <- dmplex_list (gm_under g); Ok (gm_atm g ++ l)
+  end.
+
+(** * effective_incons + initial_json: one value per cell, in geometry order *)
+Fixpoint zget (k : str) (l : list (str * Z)) : option Z :=
+  match l with [] => None | (k', v) :: r => if str_eqb k k' then Some v else zget k r end.
+(** the value effective_incons files under block name [n] *)
+Definition eff_incon (x : xin) (n : str) : option Z :=
+  match zget n (x_incon x) with
+  | Some v => Some v
+  | None => match grid_lookup x n with
+            | Some b => Some (match zget (b_rock b) (x_indom x) with Some v => v | None => x_default x end)
+            | None => None
+            end
+  end.
+Definition nat_of_z (z : Z) : nat := Z.to_nat z.
+Definition uniform_incons (x : xin) : bool := match x_indom x, x_incon x with [], [] => true | _, _ => false end.
+Definition underground (x : xin) : list str := skipn (nat_of_z (x_natm x)) (x_geo x).
+Fixpoint lookup_all (x : xin) (l : list str) : res (list Z) :=
+  match l with
+  | [] => Ok []
+  | n :: r => match eff_incon x n with None => Raise KeyError | Some v => do rest <- lookup_all x r; Ok (v :: rest) end
+  end.
+Definition initial_cells (x : xin) : res (list Z) :=
+  if uniform_incons x then Ok (map (fun _ => x_default x) (underground x)) else lookup_all x (underground x).
+
+(** * boundaries_json: the faces of the boundary blocks *)
+Definition other_end (bn : str) (c : str * str) : option str :=
+  if str_eqb (fst c) bn then Some (snd c) else if str_eqb (snd c) bn then Some (fst c) else None.
+Definition is_interior (x : xin) (n : str) : option bool := option_map (nonbdy x) (grid_lookup x n).
+(** cells of the faces of boundary block [bn]: one per connection to an interior block *)
+Fixpoint face_cells (x : xin) (bn : str) (cs : list (str * str)) : res (list Z) :=
+  match cs with
+  | [] => Ok []
+  | c :: r =>
+      match other_end bn c with
+      | None => face_cells x bn r
+      | Some o =>
+          match is_interior x o with
+          | None => Raise KeyError
+          | Some false => face_cells x bn r
+          | Some true => match cell_index x o with
+                         | None => Raise KeyError
+                         | Some ci => do rest <- face_cells x bn r; Ok (ci :: rest)
+                         end
+          end
+      end
+  end.
+(** boundary value of a block: what effective_incons holds for it (the list of defaults when uniform) *)
+Definition bdy_value (x : xin) (n : str) : res Z :=
+  if uniform_incons x then Ok (x_default x) else match eff_incon x n with Some v => Ok v | None => Raise KeyError end.
+Fixpoint boundary_loop (x : xin) (bl : list blockrec) : res (list (str * (Z * list Z))) :=
+  match bl with
+  | [] => Ok []
+  | b :: r =>
+      if nonbdy x b then boundary_loop x r
+      else do v <- bdy_value x (b_name b);
+           do cells <- face_cells x (b_name b) (grid_conns (x_d x));
+           do rest <- boundary_loop x r;
+           Ok (match cells with [] => rest | _ => (b_name b, (v, cells)) :: rest end)
+  end.
+Definition boundary_faces (x : xin) : res (list (str * (Z * list Z))) := boundary_loop x (grid_blocks (x_d x)).
